@@ -222,6 +222,9 @@ def plan(prop, tier):
         P += S("release", "hist", n=8000 if q else 40000, shards=4, profile="clone")
         P += S("release", "clones", n=6000 if q else 60000, shards=8)
         P += S("debug", "clones", n=2000 if q else 12000, shards=2)
+        # the destination of a clone_from interrupted by a panic in Clone / Hash: it must have
+        # discarded its previous contents and still be a map
+        P += S("release", "fault", n=60 if q else 1500, shards=2 if q else 4, timeout=5400)
     elif prop == "C12":
         P += S("release", "chains", shards=12 if q else 14, stride=1, sizes="0,5,20,40,70" if q else "0,1,5,14,20,29,40,57,70,113", timeout=3000)
         P += S("debug", "chains", shards=4, stride=6 if q else 1, timeout=3000)
